@@ -1,11 +1,19 @@
 #!/usr/bin/env python3
 """Builds /verif/seeded/RESULTS.md and updates each seeded/<id>/meta.json from the evaluation logs
-(/root/vscratch/seed_eval*.log, seed_check*.log). Development tooling, not a registered check."""
+(copies of the run summaries are kept in /verif/seeded/_logs; the per-seed check outputs stay in
+/root/vscratch/seedlogs while they exist). Development tooling, not a registered check."""
 import json, glob, os, re, sys
+LOGS = '/verif/seeded/_logs'
 confirm = {}   # id -> confirm string
-checks = {}    # id -> {prop: (exit, labels)}
 first = {}     # id -> exit code of the property's check when the seed was first evaluated
-for f in sorted(glob.glob('/root/vscratch/seed_eval*.log')):
+checks = {}    # id -> {prop: (exit, labels)}
+# first verdicts of seeds that were pre-screened through overlays before their recorded (apply-to-/repo) evaluation
+for f in sorted(glob.glob(LOGS + '/seed_first*.log')):
+    for l in open(f):
+        m = re.match(r'(C\d+-\d+) \| (C\d+) exit=(\d+)', l.strip())
+        if m:
+            first.setdefault(m.group(1), int(m.group(3)))
+for f in sorted(glob.glob(LOGS + '/seed_eval*.log')):
     for l in open(f):
         m = re.match(r'(C\d+-\d+) prop=(C\d+) (.*)', l.strip())
         if not m: continue
@@ -23,7 +31,7 @@ for f in sorted(glob.glob('/root/vscratch/seed_eval*.log')):
             checks.setdefault(sid, {})[prop] = (int(ce.group(1)), labels)
             if not (f.endswith('seed_eval.log') and int(ce.group(1)) == 2):  # that run hit a stale-harness build error; its real first verdict is in seed_check.log
                 first.setdefault(sid, int(ce.group(1)))
-for f in sorted(glob.glob('/root/vscratch/seed_check*.log')):
+for f in sorted(glob.glob(LOGS + '/seed_check*.log')):
     for l in open(f):
         l = l.strip()
         m = re.match(r'(C\d+-\d+) prop=(C\d+) APPLY-FAILED', l)
